@@ -89,6 +89,8 @@ impl Val {
 #[derive(Clone, Debug, PartialEq, Serialize, Deserialize)]
 pub enum Op {
     Const(u64),
+    /// the constant c handed to the builder in its non-canonical representation p + c (c < 2^32 - 1)
+    ConstNC(u64),
     Add(usize, usize),
     Sub(usize, usize),
     Mul(usize, usize),
@@ -217,6 +219,7 @@ impl Program {
         let bits_of = |x: u64, n: usize| -> Vec<Val> { (0..n).map(|i| Val::B((x >> i) & 1 == 1)).collect() };
         match op {
             Const(c) => v.push(Val::F(*c % rm::P)),
+            ConstNC(c) => v.push(Val::F(*c % rm::P)),
             Add(a, b) => v.push(Val::F(rm::add(v[*a].f(), v[*b].f()))),
             Sub(a, b) => v.push(Val::F(rm::sub(v[*a].f(), v[*b].f()))),
             Mul(a, b) => v.push(Val::F(rm::mul(v[*a].f(), v[*b].f()))),
@@ -519,6 +522,7 @@ impl Program {
         for (oi, op) in self.ops.iter().enumerate() {
             match op {
                 Const(c) => tv.push(TV::F(b.constant(fe(*c)))),
+                ConstNC(c) => tv.push(TV::F(b.constant(F::from_noncanonical_u64(rm::P + (*c % 0xFFFF_FFFE))))),
                 Add(x, y) => tv.push(TV::F(b.add(tv[*x].f(), tv[*y].f()))),
                 Sub(x, y) => tv.push(TV::F(b.sub(tv[*x].f(), tv[*y].f()))),
                 Mul(x, y) => tv.push(TV::F(b.mul(tv[*x].f(), tv[*y].f()))),
@@ -912,7 +916,16 @@ pub fn gen_program(r: &mut Rng, cfg: &CircuitConfig, fam: &Families, max_ops: us
                         let n = g.r.range(0, 5);
                         Op::MulMany(g.fs(n))
                     }
-                    _ => Op::Const(c0),
+                    _ => {
+                        if g.r.chance(1, 2) {
+                            // the same constant in both representations
+                            let c = g.r.below(1 << 20);
+                            g.push(Op::Const(c));
+                            Op::ConstNC(c)
+                        } else {
+                            Op::Const(c0)
+                        }
+                    }
                 };
                 g.push(op);
             }
